@@ -12,8 +12,10 @@ Oracle (nothing below uses the library's polynomial evaluation or integrators):
     dictionary, cross-checked against ``polyutil.eval_dict`` / ``polyutil.ham_field`` at run time);
   * SciPy DOP853 (rtol 1e-12) on the reduced flow (q1 = p1 = 0) from each predecessor, all zero crossings of the section
     coordinate located on the dense output (Brent), admissibility of each crossing three valued.
-Clauses: 1 on section / points are the labelled columns; 2 energy level within K_E dt^p and shrinking with dt; 3 genuine first
-admissible return; 4 multiset of returned states bit-identical over n_workers x numba threads x sleep injection (x layer).
+Clauses: 1 on section / points (and get_points / get_states) are the labelled columns; 2 energy level within K_E dt^p and
+shrinking with dt; 3 genuine first admissible return (+ bookkeeping: returned rows = back-end successors, seeds fed back);
+4 multiset of returned states bit-identical over n_workers x numba threads x sleep injection, and (thorough) under the
+workqueue threading layer in sub-processes (one worker / several workers).
 """
 from __future__ import annotations
 
@@ -404,14 +406,17 @@ def pairs_of(records):
 
 # ====================================================================== tolerances (calibrated on the real code, see report)
 # Energy: measured max of |H - h0| / (iteration index + 1) at dt = 0.01 over energies, strategies, RK orders and both points
-# (L1 h<=1.3, L2 h<=1.0): q3 1.4e-7, p3 5.7e-7, q2 5.0e-7, p2 3.4e-6.  The error comes from zeroing the section coordinate of
-# the Hermite point taken at the *linear* crossing fraction (residual ~ f'' dt^2 / 8), so it scales like dt^2 (p2) .. dt^4 (q3):
-# envelope max(r^2, r^4), r = dt / 0.01 (measured 0.02 -> 0.01 ratios 3.9 .. 14, 0.01 -> 0.005 ratios 3 .. 8).  Margin 10.
-K_E_RK = {"q3": 3.0e-7, "p3": 6.0e-7, "q2": 6.0e-7, "p2": 4.0e-6}
+# (L1 h <= 1.3, L2 h <= 1.0): q3 1.4e-7, p3 5.7e-7, q2 5.0e-7, p2 3.4e-6; the table is 1.5 x that after the thorough sweep
+# (largest observed |H - h0| / tolerance there: 0.14 with the old table).  The error comes from zeroing the section
+# coordinate of the Hermite point taken at the *linear* crossing fraction (residual ~ f'' dt^2 / 8), so it scales like
+# dt^2 (p2) .. dt^4 (q3): envelope max(r^2, r^4), r = dt / 0.01 (measured 0.02 -> 0.01 ratios 3.9 .. 14, 0.01 -> 0.005
+# ratios 3 .. 8); energy dependence min(1, h / h_ref)^1.25 (measured exponents 1.5 .. 2 below h_ref).  Margin 10.
+K_E_RK = {"q3": 4.5e-7, "p3": 9.0e-7, "q2": 9.0e-7, "p2": 6.0e-6}
 H_REF = {"L1": 1.0, "L2": 0.6}
-# Symplectic (Tao extended phase space, omega = (c dt)^-order): measured per-iteration energy error / state error at h_ref.
+# Symplectic (Tao extended phase space, omega = (c dt)^-order, re-initialised every step): measured per-iteration energy
+# error and state error at h_ref over sections / points / strategies (quick + thorough sweeps); not monotone in dt.
 K_E_SYMP = {4: {0.02: 5.0e-3, 0.01: 1.0e-3, 0.005: 1.0e-4}, 6: {0.02: 1.2e-2, 0.01: 2.5e-3, 0.005: 2.6e-3}}
-K_S_SYMP = {4: {0.02: 5.6e-3, 0.01: 1.3e-3, 0.005: 4.5e-4}, 6: {0.02: 1.2e-2, 0.01: 2.2e-3, 0.005: 1.6e-3}}
+K_S_SYMP = {4: {0.02: 1.6e-2, 0.01: 4.5e-3, 0.005: 6.0e-4}, 6: {0.02: 1.4e-2, 0.01: 2.5e-3, 0.005: 1.6e-3}}
 MARGIN = 10.0
 STATE_MARGIN_RK = 8.0          # on the conditioning bound speed * dt^2 * max|f''| / (8 |f'|); measured ratio <= 1.00
 SHRINK = 0.75                  # E(dt/2) <= SHRINK * E(dt) inside the conclusive window; measured ratios 0.07 .. 0.44 (RK)
@@ -869,13 +874,13 @@ def _worker_main(spec_path, out_path):
         json.dump({"layer": layer, "results": out}, f)
 
 
-def layer_monitor(ctx, envs, rec, bases, layer="workqueue", timeout=1500):
-    """Clause 4 across threading layers: the same configurations in a sub-process with NUMBA_THREADING_LAYER=<layer>."""
+MECH_WQ = "cm-map-concurrent-kernel-launch-aborts-process-under-workqueue"
+
+
+def _layer_subprocess(ctx, cfgs, layer, timeout):
+    """Run the configurations in a fresh interpreter with NUMBA_THREADING_LAYER=<layer>; (status, output tail, results)."""
+    import shutil
     import tempfile
-    cfgs = []
-    for base in bases:
-        for (nw, nt, sl) in ((1, 1, False), (3, 4, True), (16, 16, True)):
-            cfgs.append(base.with_(n_workers=nw, nthreads=nt, sleep=sl))
     tmp = tempfile.mkdtemp(prefix="hmon_c14_", dir=os.environ.get("HITEN_SCRATCH") or None)
     spec, outp = os.path.join(tmp, "spec.json"), os.path.join(tmp, "out.json")
     with open(spec, "w") as f:
@@ -883,31 +888,60 @@ def layer_monitor(ctx, envs, rec, bases, layer="workqueue", timeout=1500):
     env = dict(os.environ)
     env["NUMBA_THREADING_LAYER"] = layer
     try:
-        cp = subprocess.run([sys.executable, "-X", "faulthandler", "-m", "hmon.monitors.c14", "--worker", spec, outp], env=env,
-                            timeout=timeout, stdout=subprocess.PIPE, stderr=subprocess.PIPE, text=True)
+        cp = subprocess.run([sys.executable, "-m", "hmon.monitors.c14", "--worker", spec, outp], env=env, timeout=timeout,
+                            stdout=subprocess.PIPE, stderr=subprocess.STDOUT, text=True)
+        res = None
+        if cp.returncode == 0 and os.path.exists(outp):
+            with open(outp) as f:
+                res = json.load(f)
+        return cp.returncode, cp.stdout or "", res
     except subprocess.TimeoutExpired:
         raise Inconclusive(f"{layer} sub-process timed out")
-    if cp.returncode != 0 or not os.path.exists(outp):
-        raise Inconclusive(f"{layer} sub-process failed (status {cp.returncode}): {cp.stderr[-400:]}")
-    with open(outp) as f:
-        res = json.load(f)
-    import shutil
-    shutil.rmtree(tmp, ignore_errors=True)
-    if res["layer"] != layer:
-        raise Inconclusive(f"sub-process ran threading layer {res['layer']!r}, not {layer!r}")
-    ctx.count(f"W:sub-process {layer} completed")
+    finally:
+        shutil.rmtree(tmp, ignore_errors=True)
+
+
+def layer_monitor(ctx, envs, rec, bases, layer="workqueue", timeout=1500):
+    """Clause 4 across threading layers: the same configurations in sub-processes with NUMBA_THREADING_LAYER=<layer>.
+
+    Group A uses one worker (no concurrent kernel launches) over numba thread counts; group B uses several workers."""
     own = {}
-    for c, r in zip(cfgs, res["results"]):
+
+    def own_hash(c):
         k = json.dumps(c.physics_key(), sort_keys=True)
         if k not in own:
             o = compute_map(envs[(c.point, c.degree)], c.with_(n_workers=1, nthreads=1, sleep=False), rec)
-            own[k] = None if o.error else (multiset_hash(_stack(o)), len(o.states))
-        if own[k] is None or r["error"] is not None or not r["calls"]:
-            ctx.skip("layer comparison without data")
-            continue
-        ctx.case(f"layer:{layer}", [asdict(c)], nontrivial=True)
-        ctx.check(r["hash"] == own[k][0], f"4:multiset of returned states bit-identical under the {layer} threading layer (sub-process)",
-                  {"config": asdict(c), "rows": [r["rows"], own[k][1]], "hash": [r["hash"], own[k][0]]})
+            own[k] = None if (o.error or not o.records) else (multiset_hash(_stack(o)), len(o.states))
+        return own[k]
+
+    def compare(cfgs, res, tag):
+        if res["layer"] != layer:
+            raise Inconclusive(f"sub-process ran threading layer {res['layer']!r}, not {layer!r}")
+        ctx.count(f"W:sub-process {layer} completed")
+        for c, r in zip(cfgs, res["results"]):
+            mine = own_hash(c)
+            if mine is None or r["error"] is not None or not r["calls"]:
+                ctx.skip("layer comparison without data")
+                continue
+            ctx.case(f"layer:{layer}:{tag}", [asdict(c)], nontrivial=True)
+            ctx.check(r["hash"] == mine[0], f"4:multiset of returned states bit-identical under the {layer} threading layer (sub-process)",
+                      {"config": asdict(c), "rows": [r["rows"], mine[1]], "hash": [r["hash"], mine[0]]})
+
+    A = [b.with_(n_workers=1, nthreads=nt, sleep=False) for b in bases for nt in THREADS]
+    rc, out, res = _layer_subprocess(ctx, A, layer, timeout)
+    if res is None:
+        raise Inconclusive(f"{layer} sub-process (one worker) failed with status {rc}: {out[-300:]}")
+    compare(A, res, "one-worker")
+    B = [bases[0].with_(n_workers=nw, nthreads=nt, sleep=sl) for (nw, nt, sl) in ((2, 1, False), (3, 4, True), (16, 16, True))]
+    rc, out, res = _layer_subprocess(ctx, B, layer, timeout)
+    msg = [ln for ln in out.splitlines() if "oncurrent access" in ln or "terminating" in ln]
+    aborted = rc in (-6, 134) and any("Concurrent access has been detected" in ln for ln in msg)
+    ctx.case(f"layer:{layer}:workers>=2", [asdict(c) for c in B], nontrivial=True)
+    ctx.check(res is not None, f"4:the map is computed for n_workers >= 2 under the {layer} threading layer (sub-process does not abort)",
+              {"exit_status": rc, "message": msg[:3] or out[-300:], "configs": [asdict(c) for c in B],
+               "one_worker_runs_completed": len(A)}, MECH_WQ if (aborted and layer == "workqueue") else None)
+    if res is not None:
+        compare(B, res, "workers>=2")
 
 
 # ====================================================================== oracle self-checks
